@@ -339,7 +339,14 @@ class FlatSet : private Compare {
 
   template <class C2, typename std::enable_if<!std::is_same<Compare, C2>::value, bool>::type = true>
   void merge(FlatSet<T, C2, Alloc, VecType> &o) {
-    for (miterator oit = o.mbegin(); oit != o.mend();) {
+    mergeUnordered(o);
+  }
+
+ private:
+  /// Merge from a set whose elements are not necessarily ordered according to our comparator
+  template <class OtherSet>
+  void mergeUnordered(OtherSet &o) {
+    for (auto oit = o.mbegin(); oit != o.mend();) {
       miterator lbIt = std::lower_bound(mbegin(), mend(), *oit, compRef());
       if (lbIt == mend()) {
         _sortedVector.push_back(std::move(*oit));
@@ -354,7 +361,13 @@ class FlatSet : private Compare {
     }
   }
 
+ public:
   void merge(FlatSet &o) {
+    if (!std::is_empty<Compare>::value) {
+      // A stateful comparator may order 'o' differently than 'this'
+      mergeUnordered(o);
+      return;
+    }
     // Do not use std::inplace_merge to avoid allocating memory if not needed
     miterator first1 = mbegin(), last1 = mend();
     miterator first2 = o.mbegin(), last2 = o.mend();
